@@ -249,7 +249,7 @@ class NetworkService(ModelElement):
             for interface in interfaces:
                 owner = self.topo.get_owner_node(interface)
                 if owner is None:
-                    print(f'In validating service {self.name} interface {interface=} has no owner')
+                    raise TopologyException(f'In validating service {self.name} interface {interface} has no owner')
                 sites.add(owner.site)
 
             if len(sites) > NetworkServiceSliver.ServiceConstraints[nstype].num_sites:
